@@ -440,7 +440,7 @@ func checkLoadResult(res *Result, cfgP gp.SimulatorConfig, data []byte, got gi.W
 		res.add("C10", "C10 "+fail.class+" "+fail.disc, map[string]any{"delivery": which, "value": fail.value, "text": string(data)})
 		return
 	}
-	zero := got.Name == "" && got.Author == "" && got.Strategy == "" && got.Code == nil && got.Start == 0
+	zero := got.Name == "" && got.Author == "" && got.Strategy == "" && len(got.Code) == 0 && got.Start == 0
 	if err != nil {
 		res.stat("probe.load-rejected", 1)
 		if !zero {
@@ -449,10 +449,8 @@ func checkLoadResult(res *Result, cfgP gp.SimulatorConfig, data []byte, got gi.W
 		return
 	}
 	res.stat("probe.load-accepted", 1)
-	if got.Code == nil {
-		res.add("C10", "C10 neither-nor-both no error and no warrior", map[string]any{"delivery": which})
-		return
-	}
+	// (nil and empty code are the same thing to a Go caller; an empty result
+	// with no error is judged by the conservation check below)
 	w := warFromI(got)
 	if clause := ref.WellFormed(w, M, -1, is88); clause != "" {
 		res.add("C10", "C10 accepted warrior: "+clause, map[string]any{"delivery": which, "text": string(data), "got": warStr(w), "start": got.Start})
